@@ -95,7 +95,7 @@ def check_tree(res, label, tree):
 
     small = P.minimise(tree, pred)
     _, msg2 = judge_dict(impl.loads(D.render(small)[0]))
-    R.add_violation(res, "%s|%s" % (cat, P.sig_doc(label, small)), "dumps output does not say what the dictionary says: " + (msg2 or msg or ""),
+    R.add_violation(res, "%s|%s" % (cat, P.oneline(small)), "dumps output does not say what the dictionary says: " + (msg2 or msg or ""),
                     {"tree": D.describe(small)}, {"label": label, "message": msg2 or msg})
 
 
